@@ -236,7 +236,7 @@ func c12Run(p *c12Plan) {
 	var fmu simsync.Mutex
 	fcond := simsync.NewCond(&fmu)
 	flag := false
-	vs.SetValue("enter", &goFunc{"enter", func(tid uint64, args []interface{}) (interface{}, error) {
+	vs.SetValue("enter", &goFunc{name: "enter", f: func(tid uint64, args []interface{}) (interface{}, error) {
 		n := fmt.Sprint(args[0])
 		if occ[n] == nil {
 			occ[n] = map[uint64]int{}
@@ -253,7 +253,7 @@ func c12Run(p *c12Plan) {
 		}
 		return nil, nil
 	}})
-	vs.SetValue("leave", &goFunc{"leave", func(tid uint64, args []interface{}) (interface{}, error) {
+	vs.SetValue("leave", &goFunc{name: "leave", f: func(tid uint64, args []interface{}) (interface{}, error) {
 		n := fmt.Sprint(args[0])
 		if occ[n][tid] <= 0 {
 			simrt.Fail("oracle:harness", "leave-without-enter", "leave(%q) by thread %d without enter", n, tid)
@@ -261,7 +261,7 @@ func c12Run(p *c12Plan) {
 		occ[n][tid]--
 		return nil, nil
 	}})
-	vs.SetValue("stall", &goFunc{"stall", func(tid uint64, args []interface{}) (interface{}, error) {
+	vs.SetValue("stall", &goFunc{name: "stall", f: func(tid uint64, args []interface{}) (interface{}, error) {
 		k, _ := num(args[0])
 		simrt.Count("fault_stall_inside_mutex")
 		if int(k)%2 == 1 {
@@ -273,16 +273,16 @@ func c12Run(p *c12Plan) {
 		}
 		return nil, nil
 	}})
-	vs.SetValue("caught", &goFunc{"caught", func(tid uint64, args []interface{}) (interface{}, error) {
+	vs.SetValue("caught", &goFunc{name: "caught", f: func(tid uint64, args []interface{}) (interface{}, error) {
 		caught++
 		return nil, nil
 	}})
-	vs.SetValue("done", &goFunc{"done", func(tid uint64, args []interface{}) (interface{}, error) {
+	vs.SetValue("done", &goFunc{name: "done", f: func(tid uint64, args []interface{}) (interface{}, error) {
 		k, _ := num(args[0])
 		doneCount[int(k)]++
 		return nil, nil
 	}})
-	vs.SetValue("waitflag", &goFunc{"waitflag", func(tid uint64, args []interface{}) (interface{}, error) {
+	vs.SetValue("waitflag", &goFunc{name: "waitflag", f: func(tid uint64, args []interface{}) (interface{}, error) {
 		fmu.Lock()
 		for !flag {
 			fcond.Wait()
@@ -290,7 +290,7 @@ func c12Run(p *c12Plan) {
 		fmu.Unlock()
 		return nil, nil
 	}})
-	vs.SetValue("setflag", &goFunc{"setflag", func(tid uint64, args []interface{}) (interface{}, error) {
+	vs.SetValue("setflag", &goFunc{name: "setflag", f: func(tid uint64, args []interface{}) (interface{}, error) {
 		fmu.Lock()
 		flag = true
 		fcond.Broadcast()
